@@ -61,22 +61,29 @@
     the trace; see the comment at the theorem).  Index tables are not claimed equal: `einsumF`
     permutes the tables of the intermediate, it does not prune them again.
   THIRD PART — `LabelRoutes` for fully paired label lists, more than two labels per tensor:
-    `netLabelsB_pattern4`, `labelRoutes_pattern4`  the label check of the doubled network
+    `netLabelsB_four`, `labelRoutes_four`   the label check of the doubled network
                                (`NormNet.netLabelsB`, hence the four `LabelRoutes` conditions of
-                               C04f's norm network) for SYMBOLIC labels with up to FOUR sorted ket
-                               labels per tensor: for every interleaving pattern `(ca, cb)` of the two
-                               sorted lists (`allPats4`: 251 patterns, each decided on its ranks) and
-                               EVERY strictly increasing list `G` of actual labels, all parities.
-    Every pair of sorted ket lists with distinct labels is `(G[ca], G[cb])` for its merged list `G` and
-    its rank pattern; that covering lemma is NOT proved (C04g proved it by hand for <= 2 labels),
-    nor is the statement for unboundedly many labels (normal-form theory of the scan).  No failing
-    pattern exists up to 4 + 4 labels, so no characterisation of failures is needed there.
+                               C04f/C10's norm network) for ALL sorted ket label lists `oA`, `oB` with
+                               at most FOUR labels per tensor and pairwise-distinct labels — symbolic
+                               labels, every interleaving, every parity assignment (C04g: <= 2);
+    `netLabelsB_pattern4`, `labelRoutes_pattern4`  the pattern form: for every interleaving pattern
+                               `(ca, cb)` (`allPats4`, 251 patterns) and every strictly increasing `G`.
+    How: two sorted disjoint lists are `G[ca]`, `G[cb]` for their merge `G` and the positions of the
+    `true` / `false` entries of their interleaving word (`Assoc5P.mergeW`, `mergeW_read`); the check
+    only compares labels (`C04.netLabelsB_order_type`), so it transfers from the rank pattern, and
+    all 251 words with at most 4 + 4 entries are decided (`Assoc5P.allWords8_ok`).
+    NOT proved: unboundedly many labels per tensor.  The general statement is NOT a consequence of
+    sortedness + distinctness of the (label, kind) pairs alone: `oddLt` puts every bra before every
+    ket, so a conjugate pair annihilates only if the scan makes it adjacent
+    (`C04.conjugate_pairs_labels_route_dependent`: `[3†], [3], [2]`); for the four operand triples
+    of the doubled network no failing pattern exists up to 4 + 4 labels (`netLabelsB_four`) —
+    plausibly because there every bra has to cross every ket, but that argument is not formalised.
   NOT proved: `n > 4` tensors of arbitrary graph; a closed formula for the permutation `P` (as in
   C04h it is existentially quantified; it satisfies `ZeroPad (U.transposeF P) T0`).
 -/
 import SymmModel.Proofs.Net4M9
 import SymmModel.Proofs.Net4M5
-import SymmModel.Proofs.Net4M6
+import SymmModel.Proofs.Net4M10
 import SymmModel.Props.C04h
 
 namespace SymmModel.C04
@@ -598,6 +605,43 @@ theorem labelRoutes_pattern4 (G : List Int) (hG : G.Pairwise (· < ·)) (ca cb :
   | ok r =>
     obtain ⟨out, ph⟩ := r
     exact ⟨out, ph, rfl, NormNet.netLabelsB_spec hm h⟩
+
+/-- **netLabelsB_four.**  All sorted ket lists with at most four labels each and pairwise-distinct
+    labels (C04g's `netLabelsB_two` with 4 in place of 2). -/
+theorem netLabelsB_four (oA oB : List (Int × Bool)) (hA : NormNet.KetLabels oA)
+    (hB : NormNet.KetLabels oB) (lA : oA.length ≤ 4) (lB : oB.length ≤ 4)
+    (hd : (oA ++ oB).Pairwise (fun x y => x.1 ≠ y.1)) (pA pB : Bool) :
+    NormNet.netLabelsB pA pB oA oB = true :=
+  Assoc5P.netLabelsB_four oA oB hA hB lA lB hd pA pB
+
+/-- **labelRoutes_four.**  Hence the merge succeeds and the four `LabelRoutes` conditions of the
+    doubled network hold (`K = a·b` with labels `out`; triples `(K, ā, b̄)`, `(a, b, K̄)`,
+    `(ā, b̄, K)`, `(K̄, a, b)`). -/
+theorem labelRoutes_four (oA oB : List (Int × Bool)) (hA : NormNet.KetLabels oA)
+    (hB : NormNet.KetLabels oB) (lA : oA.length ≤ 4) (lB : oB.length ≤ 4)
+    (hd : (oA ++ oB).Pairwise (fun x y => x.1 ≠ y.1)) (pA pB : Bool) :
+    ∃ out ph, OddposP.mergeOddpos pA oA oB = .ok (out, ph)
+      ∧ Assoc2P.LabelRoutes (xor pA pB) pA out (Arr.oddposDag oA) (Arr.oddposDag oB)
+      ∧ Assoc2P.LabelRoutes pA pB oA oB (Arr.oddposDag out)
+      ∧ Assoc2P.LabelRoutes pA pB (Arr.oddposDag oA) (Arr.oddposDag oB) out
+      ∧ Assoc2P.LabelRoutes (xor pA pB) pA (Arr.oddposDag out) oA oB := by
+  have h := Assoc5P.netLabelsB_four oA oB hA hB lA lB hd pA pB
+  cases hm : OddposP.mergeOddpos pA oA oB with
+  | error e =>
+    unfold NormNet.netLabelsB at h
+    rw [hm] at h
+    cases h
+  | ok r =>
+    obtain ⟨out, ph⟩ := r
+    exact ⟨out, ph, rfl, NormNet.netLabelsB_spec hm h⟩
+
+/-- non-vacuity: three and four labels, interleaved -/
+example : NormNet.KetLabels [((4 : Int), false), (9, false), (31, false)]
+    ∧ NormNet.KetLabels [((6 : Int), false), (11, false), (20, false), (40, false)]
+    ∧ ([((4 : Int), false), (9, false), (31, false)]
+        ++ [(6, false), (11, false), (20, false), (40, false)]).Pairwise
+        (fun (x y : Int × Bool) => x.1 ≠ y.1) := by
+  refine ⟨⟨by decide, by decide⟩, ⟨by decide, by decide⟩, by decide⟩
 
 /-- non-vacuity: three labels per tensor, interleaved `a < b < a < b < b < a` -/
 example : ([4, 6, 9, 11, 20, 31] : List Int).Pairwise (· < ·) ∧ ([0, 2, 5], [1, 3, 4]) ∈ allPats4
